@@ -100,7 +100,13 @@ def run_schema(ctx, name, full, ns=""):
     known_shorts = {l.split("/")[-1].casefold() for l in longs}
     nodes = [l for l in longs if not l.endswith("/#") and l not in ans["dups"]]
     if not full:
-        nodes = ctx.rng.sample(nodes, min(len(nodes), 120))
+        pick = set(ctx.rng.sample(nodes, min(len(nodes), 120)))
+        if ns:
+            # spellings whose first letters are letters of the prefix itself (a prefix removed as a character set
+            # rather than as a string would eat them)
+            near = [n for n in nodes if any(c and c[0].lower() in ns.lower() for c in n.split("/"))]
+            pick |= set(ctx.rng.sample(near, min(len(near), 150)))
+        nodes = [n for n in nodes if n in pick]
     cases = []
     for long in nodes:
         comps = long.split("/")
@@ -174,6 +180,8 @@ def run(ctx):
     for n in QUICK_FULL:
         run_schema(ctx, n, True)
     run_schema(ctx, "8.3.0", False, ns="xx:")
+    run_schema(ctx, "8.3.0", False, ns="sc:")
+    run_schema(ctx, "testlib_2.0.0", False, ns="tl:")
     for n in OTHERS:
         run_schema(ctx, n, not ctx.quick())
     if not ctx.quick():
